@@ -218,13 +218,23 @@ def gen_writer_doc(rng, idx):
     meta_k = rng.randint(1, nstreams) if idx % 3 == 0 else None
     meta_typed = meta_k is not None and idx % 2 == 0
     srefs = {}
+    enc = {}
     for k in range(1, nstreams + 1):
         dd = {}
         if k == meta_k and meta_typed:
             dd = D(Type=N("Metadata"), Subtype=N("XML"))
         elif rng.random() < 0.4:
             dd = D(Type=N("XObject"), Subtype=N("Form"), BBox=[0, 0, 10, 10])
-        srefs[k] = d.add(Stream(dd, w_data(k)))
+        # how the data are stored: as they are, Flate-compressed (will_filter_stream's "already compressed" exception), or behind a filter
+        # qpdf cannot decode (filterable() false: the stream is written unchanged even when it is page content)
+        enc[k] = rng.choice(["plain", "plain", "flate", "undecodable"])
+        stored = w_data(k)
+        if enc[k] == "flate":
+            dd[b"Filter"] = N("FlateDecode")
+            stored = zlib.compress(stored)
+        elif enc[k] == "undecodable":
+            dd[b"Filter"] = N("JPXDecode")
+        srefs[k] = d.add(Stream(dd, stored))
     other = d.add(D(Note=Str(b"not a stream")))
     objs = {}       # object number -> model syntax of arrays / non-streams reachable from /Contents
     pages_syntax = []
@@ -298,7 +308,7 @@ def gen_writer_doc(rng, idx):
     d.objects[cat.n] = c
     d.trailer = {b"Root": cat}
     for k in range(1, nstreams + 1):
-        sdict[k] = (srefs[k].n, k == meta_k and meta_typed, sorted(roles[k]))
+        sdict[k] = (srefs[k].n, k == meta_k and meta_typed, sorted(roles[k]), enc[k], d.objects[srefs[k].n].data)
     stobjs = ["%d=s%s" % (srefs[k].n, hexs(w_data(k))) for k in range(1, nstreams + 1)] + ["%d=%s" % (n, s) for n, s in sorted(objs.items())]
     return pdfgen.write_classic(d)[0], "/".join(pages_syntax), ",".join(stobjs), sdict, {k: (k in content) for k in range(1, nstreams + 1)}
 
@@ -355,13 +365,13 @@ def part_writer(chk, drv, runner):
         path, pages, objs, sdict, judge = docs[i]
         cfg = ("1" if eff[name] else "0") + cl[0] + "0" + cl[1] + "00"
         ss = []
-        for k, (num, rootmd, _) in sorted(sdict.items()):
-            h = hexs(w_data(k))
-            ss.append("%d=1%s0%s0:%s:%s:%s:%s" % (num, "0", "1" if rootmd else "0", h, h, h, h))
+        for k, (num, rootmd, _, enc, stored) in sorted(sdict.items()):
+            h = hexs(w_data(k)) if enc != "undecodable" else "X"
+            ss.append("%d=10%s%s0:%s:%s:%s:%s" % (num, "1" if enc == "flate" else "0", "1" if rootmd else "0", hexs(stored), h, h, h))
         lines.append("ciwrite %s %s %s %s" % (cfg, pages, objs, ",".join(ss)))
     model = common.run_lines(runner, lines, shards=4)
     stats = {"documents": len(docs), "jobs": len(jobs), "streams_judged": 0, "normalised": 0, "not_page_content": 0, "page_content_and_other_role": 0,
-             "lookalike_not_registered": 0, "root_metadata_and_page_content": 0, "roles": {}}
+             "lookalike_not_registered": 0, "root_metadata_and_page_content": 0, "roles": {}, "storage": {}}
     nontriv = set()
     tie = []
     for ji, (i, (name, args, qa, cl)) in enumerate(jobs):
@@ -381,7 +391,7 @@ def part_writer(chk, drv, runner):
             num, v = item.split("=")
             dat, nrm, nw = v.split(".")
             mod[int(num)] = (bytes.fromhex(dat) if dat != "-" else b"", nrm == "1")
-        for k, (num, rootmd, rl) in sorted(sdict.items()):
+        for k, (num, rootmd, rl, enc, stored) in sorted(sdict.items()):
             stats["streams_judged"] += 1
             for r_ in rl:
                 stats["roles"][r_] = stats["roles"].get(r_, 0) + 1
@@ -395,6 +405,7 @@ def part_writer(chk, drv, runner):
             changed = data != orig
             # independent judgement (by construction, ISO 32000-1 Table 30): only page content may be re-spelt, and only when normalisation is on
             may = judge[k] and eff[name]
+            stats["storage"][enc] = stats["storage"].get(enc, 0) + 1
             if judge[k] and rl:
                 stats["page_content_and_other_role"] += 1
             if judge[k] and rootmd:
@@ -411,7 +422,10 @@ def part_writer(chk, drv, runner):
             if changed:
                 stats["normalised"] += 1
                 nontriv.add((i, name, k))
-            if mod.get(num) != (data, changed):
+            md = mod.get(num)
+            if md is not None and enc == "flate" and md[0] == stored:
+                md = (orig, md[1])          # written as stored: still Flate-compressed, read back through the decoder
+            if md != (data, changed):
                 tie.append((ji, k, num, data, mod.get(num)))
     if tie:
         ji, k, num, data, m = tie[0]
@@ -421,5 +435,5 @@ def part_writer(chk, drv, runner):
                        "model": repr(m), "replay": lines[ji][:1500],
                        "note": "the extracted writer model (ci_write_all) and qpdf disagree on what is written for a stream, but no stream outside page content was rewritten"},
                       no_input=True)
-    chk.count("writer", stats["streams_judged"], nontriv, samples=[{"pages": docs[i][1], "objects": docs[i][2][:200], "roles": {k: v[2] for k, v in docs[i][3].items()}} for i in (0, len(docs) - 1)])
+    chk.count("writer", stats["streams_judged"], nontriv, samples=[{"pages": docs[i][1], "objects": docs[i][2][:200], "roles": {k: v[2] + [v[3]] for k, v in docs[i][3].items()}} for i in (0, len(docs) - 1)])
     chk.cov["parts"]["writer"].update(stats)
